@@ -194,6 +194,65 @@ def keyword_tables():
     return ckw, cpp_extra, jskw, jsty, pykw
 
 
+def elision_tables():
+    """core/src/hir/elision.rs: the arms of ElisionSource::visit_lifetime and of the Anonymous case of
+    ReturnLifetimeLowerer::lower_lifetime, as Gallina matches over an abstract lifetime type"""
+    txt = open(os.path.join(REPO, "core/src/hir/elision.rs")).read()
+    m = re.search(r"enum ElisionSource \{(.*?)\n\}", txt, re.S)
+    if not m:
+        raise MachineryError("tablegen: enum ElisionSource not found")
+    variants = re.findall(r"^\s*(\w+)(\(MaybeStatic<Lifetime>\))?,", re.sub(r"///[^\n]*", "", m.group(1)), re.M)
+    if [v for v, _ in variants] != ["NoBorrows", "SelfParam", "OneParam", "MultipleBorrows"] or [bool(a) for _, a in variants] != [False, True, True, False]:
+        raise MachineryError(f"tablegen: ElisionSource has variants {variants}; Lifetimes/Elision.v is written for NoBorrows | SelfParam(l) | OneParam(l) | MultipleBorrows")
+    body = re.sub(r"//[^\n]*", "", fn_body(txt, "visit_lifetime"))
+    mm = re.search(r"match self \{(.*)\}\s*;?\s*$", body.strip(), re.S)
+    if not mm:
+        raise MachineryError("tablegen: visit_lifetime is no longer a single `match self`")
+    arms = re.findall(r"ElisionSource::(\w+)(\(_\))?\s*=>\s*(\*self = ElisionSource::(\w+)(\(lifetime\))?|\{\s*\})\s*,?", mm.group(1))
+    rest = re.sub(r"ElisionSource::(\w+)(\(_\))?\s*=>\s*(\*self = ElisionSource::(\w+)(\(lifetime\))?|\{\s*\})\s*,?", "", mm.group(1)).strip()
+    if rest or len(arms) != 4:
+        raise MachineryError(f"tablegen: unrecognised arm in visit_lifetime: {rest[:200]!r}")
+    coqv = {"NoBorrows": "NoBorrows", "SelfParam": "SelfParam", "OneParam": "OneParam", "MultipleBorrows": "Multiple"}
+    visit = {}
+    for src, _a, rhs, dst, carries in arms:
+        if rhs.startswith("{"):
+            visit[src] = None                          # unchanged
+        else:
+            if (dst in ("SelfParam", "OneParam")) != bool(carries):
+                raise MachineryError(f"tablegen: visit_lifetime arm {src} => {rhs}: payload mismatch")
+            visit[src] = (coqv[dst], bool(carries))
+    if set(visit) != set(coqv):
+        raise MachineryError(f"tablegen: visit_lifetime does not cover every variant: {sorted(visit)}")
+    # ReturnLifetimeLowerer::lower_lifetime, Anonymous arm
+    i = txt.index("impl<'ast> LifetimeLowerer for ReturnLifetimeLowerer<'ast>")
+    rbody = re.sub(r"//[^\n]*", "", fn_body(txt[i:], "lower_lifetime"))
+    am = re.search(r"ast::Lifetime::Anonymous => match self\.elision_source \{(.*?)\n\s*\},", rbody, re.S)
+    if not am:
+        raise MachineryError("tablegen: the Anonymous arm of ReturnLifetimeLowerer::lower_lifetime changed shape")
+    ret = {}
+    for pats, rhs in re.findall(r"((?:ElisionSource::\w+(?:\(lifetime\))?\s*\|?\s*)+)=>\s*(lifetime|\{\s*panic!\([^)]*\)\s*\})\s*,?", am.group(1)):
+        for v in re.findall(r"ElisionSource::(\w+)", pats):
+            ret[v] = rhs == "lifetime"
+    if set(ret) != set(coqv) or any(ret[v] and v not in ("SelfParam", "OneParam") for v in ret):
+        raise MachineryError(f"tablegen: unrecognised Anonymous arm of ReturnLifetimeLowerer::lower_lifetime: {ret}")
+    lines = ["", "(* core/src/hir/elision.rs: enum ElisionSource, ElisionSource::visit_lifetime, and the Anonymous arm of",
+             "   ReturnLifetimeLowerer::lower_lifetime (None = panic!), over an abstract type of lifetimes *)",
+             "Inductive esrc_of (L : Type) := NoBorrows | SelfParam (l : L) | OneParam (l : L) | Multiple.",
+             "Arguments NoBorrows {L}. Arguments SelfParam {L} l. Arguments OneParam {L} l. Arguments Multiple {L}.",
+             "Definition visit_of {L : Type} (e : esrc_of L) (l : L) : esrc_of L :=", "  match e with"]
+    for v in ("NoBorrows", "SelfParam", "OneParam", "MultipleBorrows"):
+        pat = coqv[v] + (" s" if v in ("SelfParam", "OneParam") else "")
+        r = visit[v]
+        rhs = pat if r is None else (r[0] + (" l" if r[1] else ""))
+        lines.append(f"  | {pat} => {rhs}")
+    lines += ["  end.", "Definition ret_anon_of {L : Type} (e : esrc_of L) : option L :=", "  match e with"]
+    for v in ("NoBorrows", "SelfParam", "OneParam", "MultipleBorrows"):
+        pat = coqv[v] + (" s" if v in ("SelfParam", "OneParam") else "")
+        lines.append(f"  | {pat} => " + ("Some s" if ret[v] else "None"))
+    lines.append("  end.")
+    return lines
+
+
 def main():
     fields, nv_names = support_fields()
     others = other_names()
@@ -254,6 +313,7 @@ def main():
               f"Definition js_reserved_types : list string := {sl(jsty)}.",
               "(* tool/src/nanobind/formatter.rs fmt_identifier: PY_KEYWORDS *)",
               f"Definition py_keywords : list string := {sl(pykw)}."]
+    lines += elision_tables()
     out = "\n".join(lines) + "\n"
     path = os.path.join(COQ, "theories", "gen", "Tables.v")
     os.makedirs(os.path.dirname(path), exist_ok=True)
